@@ -139,3 +139,6 @@ if __name__ == "__main__":
     t = time.time()
     ensure_all(sys.argv[1:] or None)
     print("built %s in %.1fs" % (",".join(sys.argv[1:] or VARIANTS), time.time() - t))
+
+WRAPS_ALL = ["sem_wait", "sem_open", "shm_open", "clock_nanosleep", "nanosleep", "poll", "connect", "accept", "recv", "recvfrom",
+             "send", "sendto", "close", "socket", "sem_post", "sem_close", "sem_unlink", "shm_unlink", "ftruncate", "mmap", "munmap"]
